@@ -328,9 +328,13 @@ def load_model(model_folder: str, model_name: str, compiler_options: Dict[str, s
                 raise InvalidCacheError("Cache generated for incompatible CasADi version")
             else:
                 raise
-        except (pickle.UnpicklingError, AttributeError, EOFError, ImportError, IndexError) as e:
-            # E.g. a cache file whose write was interrupted, or is still in progress
+        except Exception as e:
+            # E.g. a cache file whose write was interrupted, is still in progress, or was
+            # written by two processes at once: unpickling damaged data can raise anything
             raise InvalidCacheError("Cache file is incomplete or damaged") from e
+
+        if not isinstance(db, dict) or "version" not in db or "options" not in db:
+            raise InvalidCacheError("Cache file is incomplete or damaged")
 
         if db["version"] != __version__:
             raise InvalidCacheError("Cache generated for a different version of pymoca")
